@@ -8,7 +8,7 @@ import impl
 
 PID = "C05"
 LEAN_MODULES = ["BtcHd.Props.C05", "BtcHd.Props.RealInst.C05"]
-LEAN_MODULES_THOROUGH = ['BtcHd.Props.TrAddr', 'BtcHd.Props.TrWallet']
+LEAN_MODULES_THOROUGH = ['BtcHd.Props.TrAddr', 'BtcHd.Props.TrWallet', 'BtcHd.Props.TrRipemd']
 TRUSTED_BASE = common.CORE_TRUSTED + [
     "SHA-256 is a parameter; RIPEMD-160 is repository code and is modelled in full (tables extracted from the source, "
     "checked against the specification's formulas); its 80-step compression is mirrored and compared with OpenSSL's "
